@@ -12,7 +12,7 @@
 import vlib
 
 
-INSTANCES = ["core", "fetch", "seldata", "auth1", "auth2", "idle", "state", "lit"]
+INSTANCES = ["core", "fetch", "seldata", "auth1", "auth2", "idle", "state", "lit", "mgmt"]
 
 
 def run(ctx):
